@@ -28,6 +28,34 @@ CHECKS = {
         note=TB + "; liveness is established for N<=4 (quick) on the extracted implementation table.",
         technique="TLC liveness checking on spec and on the transition table extracted from the real design; trace validation",
         design="5 (C08/C09), 2"),
+    "C12": dict(
+        text=("TLC model-checks specs/FieldAction_MC.tla: every action kind, width<=3(4), init, storage "
+              "state and input vector, with the per-bit statement of C12 (set wins ties, untouched bits "
+              "keep, RW holds last written via a history variable, pass-through, data = bus read) asserted "
+              "on every transition; every exported transition is taken on the real csr.action classes and "
+              "validated by TLC, as are random wide signed/enum/unsigned instances."),
+        note=TB + "; widths above 4 are covered by validated random executions only.",
+        technique="TLA+ spec + TLC model checking; edge tour on the real design; TLC trace validation",
+        design="5 (C12)"),
+    "C13": dict(
+        text=("Hardware half: TLC model-checks specs/EventMon_MC.tla (all sizes<=2(3), all trigger-mode "
+              "assignments, every state and input; NoEventLost, StickyUntilCleared, edge rules as two-step "
+              "action properties, LineIsEnabledAndPending); every exported transition is taken on the real "
+              "event.Monitor built from an event map with shuffled repeated adds. API half: every EventMap "
+              "history to a depth is model-checked (dense, stable, first-addition order, frozen rejects) "
+              "and every (state, call) edge replayed on real EventMap objects. All recorded traces are "
+              "validated by TLC."),
+        note=TB + "; monitors larger than 3 sources are covered by validated random executions only.",
+        technique="TLA+ spec + TLC model checking; edge tour on the real design/object; TLC trace validation",
+        design="5 (C13)"),
+    "C15": dict(
+        text=("TLC model-checks specs/WbSram_MC.tla (small geometries, every input every cycle; ack timing, "
+              "no double write, select exactness, read-your-writes against an independent shadow memory, "
+              "read-only inertness); every exported transition is taken on the real WishboneSRAM with the "
+              "whole memory compared every cycle; random geometries/init images; all validated by TLC."),
+        note=TB + "; memory contents are read through the simulator from the public memory-map resource.",
+        technique="TLA+ spec + TLC model checking; edge tour on the real design; TLC trace validation",
+        design="5 (C15)"),
 }
 
 PENDING = "check not built yet in this round; see DESIGN.md section 13 for the build order"
